@@ -16,14 +16,14 @@
 #include "rebound.h"
 
 static int g_port, g_nreq;
-static volatile int g_stop = 0;
+static int g_stop = 0;
 static long g_bodies = 0, g_bytes = 0;
 static int g_fail = 0;
 
 static void* client(void* arg){
     (void)arg;
     char buf[1<<16];
-    for (int k=0; k<g_nreq && !g_stop; k++){
+    for (int k=0; k<g_nreq && !__atomic_load_n(&g_stop, __ATOMIC_SEQ_CST); k++){
         int fd = socket(AF_INET, SOCK_STREAM, 0);
         struct sockaddr_in a; memset(&a,0,sizeof(a));
         a.sin_family = AF_INET; a.sin_port = htons(g_port); a.sin_addr.s_addr = htonl(INADDR_LOOPBACK);
@@ -66,7 +66,7 @@ int main(int argc, char** argv){
     for (int k=1;k<=calls;k++){
         reb_simulation_integrate(r, span*k);
     }
-    g_stop = 1;
+    __atomic_store_n(&g_stop, 1, __ATOMIC_SEQ_CST);
     pthread_join(th, NULL);
     reb_simulation_stop_server(r);
     printf("done steps=%llu bodies=%ld bytes=%ld\n", (unsigned long long)r->steps_done, g_bodies, g_bytes);
